@@ -301,7 +301,7 @@ def view_uses(eng, f):
         if ptr is None:
             continue
         pr = prov(f, ptr, outptr=outp)
-        if pr.kind != "param":
+        if pr.kind not in ("param", "cursor"):
             continue
         pt = (strip(ptr).get("t") or {})
         size = None
@@ -322,7 +322,8 @@ def view_uses(eng, f):
         ptype = [p for p in f.params if p["decl"] == pr.base]
         if ptype and "**" in ptype[0]["t"]["s"].replace(" ", ""):
             continue
-        out.append((n, pr.base, pr.off + size, "view of %s at offset %d" % (pr.view or pt.get("pointee"), pr.off)))
+        out.append((n, pr.base if pr.kind == "param" else "cursor:" + pr.base, pr.off + size,
+                    "view of %s at offset %d" % (pr.view or pt.get("pointee"), pr.off)))
     return out
 
 
@@ -374,8 +375,25 @@ def rule_views(eng):
             continue
         outp = outptr_env(eng, f)
         for n, pdecl, need, what in uses:
-            sdecl, sidx = companion(f, pdecl)
             key = "%s:%s@%s" % (f.name.replace(NS, ""), what.replace(NS, ""), (n.get("loc") or "").split(":", 1)[-1])
+            if pdecl.startswith("cursor:"):
+                # a view through a moving local pointer: a validator result on (cursor, remaining) must be live here
+                cur = pdecl[7:]
+                fs = eng.mf(f).at(n)
+                best, bs = 0, None
+                for a in fs:
+                    if a[0] == "truth" and a[2] is True and a[3].get("k") == "call" and len(a[3].get("args", [])) >= 2 and \
+                            canon(strip_all_casts(a[3]["args"][0])) == cur:
+                        sv = canon(strip_all_casts(a[3]["args"][1]))
+                        lb, _ = eng.facts_lb(f, n, sv, cur)
+                        if lb > best:
+                            best, bs = lb, sv
+                res.check(best >= need, "C02-R1", key, n.get("loc"), "cursor view: validator result on (%s, %s) live here guarantees %d >= %d bytes" %
+                          (cur.split(":")[-1], (bs or "?").split(":")[-1], best, need),
+                          "%s through the moving pointer `%s` needs %d bytes but no validator result on that pointer is live here (guaranteed: %d)" %
+                          (what, cur.split(":")[-1], need, best))
+                continue
+            sdecl, sidx = companion(f, pdecl)
             if sdecl is None:
                 eng.req.setdefault(f.key, {}).setdefault(pdecl, [0, None, []])
                 r = eng.req[f.key][pdecl]
@@ -574,13 +592,18 @@ def vec_member_lb(eng, cf, vec_node):
     for f in eng.fb.all_functions():
         if f.rec != rec:
             continue
-        for c in f.calls("std::vector::resize"):
-            if strip_all_casts(c.get("obj", {})).get("field") == fld:
-                v = expr_lb(eng, f, c["args"][0], fld)
+        sized = set()
+        for _, kind, c, ln in facts.vector_sizing(f, fld):
+            sized.add(c["id"])
+            if kind == "set":
+                v = expr_lb(eng, f, ln, fld)
                 if v != "INV":
                     lbs.append(v)
+            elif kind == "unknown":
+                lbs.append(0)
         for d, kind, n in writes_of(f):
-            if d == fld and kind in ("call:clear", "call:pop_back", "call:erase", "call:shrink_to_fit", "call:assign", "call:operator=", "call:swap"):
+            if d == fld and isinstance(n, dict) and n.get("id") not in sized and \
+                    kind in ("call:clear", "call:pop_back", "call:erase", "call:shrink_to_fit", "call:assign", "call:operator=", "call:swap"):
                 lbs.append(0)
     return min(lbs) if lbs else 0
 
@@ -878,17 +901,25 @@ def rule_construction(eng):
 def rule_copies(eng):
     fb, res = eng.fb, eng.res
     for f in eng.fns:
-        for c in f.calls():
-            ca = facts.copy_args(c)
+        for c in f.nodes():
+            if c.get("k") not in ("call", "construct"):
+                continue
+            ca = facts.copy_args(c) if c.get("k") == "call" else None
+            managed = False
+            if ca is None:
+                ca = facts.range_copy_args(f, c)
+                managed = ca is not None
             if ca is None:
                 continue
             dst, src, ln = ca
+            if ln is None and not managed and callee_name(c) == "std::copy":
+                ln = facts.range_length(f, c["args"][0], c["args"][1])
             if ln is None:
                 res.bad("C02-R3", "%s:copy@%s" % (f.name.replace(NS, ""), (c.get("loc") or "").split(":", 1)[-1]), c.get("loc"),
                         "iterator-range copy `%s`: not in the inventory of justified copy forms" % canon(c)[:120])
                 continue
             key = "%s:copy@%s" % (f.name.replace(NS, ""), (c.get("loc") or "").split(":", 1)[-1])
-            ok, why = justify_copy(eng, f, c, dst, src, ln)
+            ok, why = justify_copy(eng, f, c, dst, src, ln, managed)
             res.check(ok, "C02-R3", key, c.get("loc"), why, "raw copy `%s` in %s: %s" % (canon(c)[:160], f.name, why))
     # raw pointer dereferences outside views: own-buffer byte reads must be locally guarded
     for f in eng.fns:
@@ -935,11 +966,11 @@ def own_offset_canon(e):
     return s
 
 
-def justify_copy(eng, f, c, dst, src, ln):
+def justify_copy(eng, f, c, dst, src, ln, managed=False):
     fb = eng.fb
     L = const_value(ln)
     lcan = canon(strip_all_casts(ln))
-    ps, pd = prov(f, src), prov(f, dst)
+    ps, pd = prov(f, src), (Prov("managed") if managed else prov(f, dst))
     fs = eng.mf(f).at(c)
     reasons = []
     # ---------------- read side
@@ -1074,7 +1105,9 @@ def justify_copy(eng, f, c, dst, src, ln):
     # ---------------- write side
     wr_ok = False
     wr = ""
-    if pd.kind == "localobj":
+    if pd.kind == "managed":
+        wr_ok, wr = True, "the destination container allocates for the range it receives"
+    elif pd.kind == "localobj":
         t = getattr(pd, "objtype", None) or {}
         sz = fb.records[t["rec"]]["size"] if t.get("rec") in fb.records else ((t.get("bits") or 0) // 8)
         wr_ok = L is not None and sz and L <= sz
